@@ -1000,14 +1000,10 @@ func c12State(store string) []string {
 			out = append(out, cp+"=raw:-")
 			return nil
 		}
-		if fi.Size() > 1<<20 { // summarise: length + hash of a 4 KiB sample every MiB
+		if fi.Size() > 1<<20 { // summarise: length + hash of the WHOLE content (two crash states that differ anywhere differ)
 			h := sha256.New()
 			if f, err := os.Open(p); err == nil {
-				buf := make([]byte, 4096)
-				for off := int64(0); off < fi.Size(); off += 1 << 20 {
-					n, _ := f.ReadAt(buf, off)
-					h.Write(buf[:n])
-				}
+				io.Copy(h, f)
 				f.Close()
 			}
 			if strings.HasPrefix(cp, "T:") {
@@ -1420,11 +1416,11 @@ func c12LiveRestart(t *testing.T, self string, op *c12Op, dir, leftover string) 
 		env = append(env, "OLLAMA_NOPRUNE=1")
 	}
 	stop := make(chan struct{})
-	opts = &c12TraceOpts{holdUnlink: leftover, maxHold: 3 * time.Second, stop: stop}
+	opts = &c12TraceOpts{holdUnlink: leftover, maxHold: 8 * time.Second, stop: stop}
 	resCh := make(chan string, 1)
 	go func() {
 		defer close(stop)
-		deadline := time.Now().Add(60 * time.Second)
+		deadline := time.Now().Add(300 * time.Second)
 		addr := ""
 		for time.Now().Before(deadline) {
 			if b, err := os.ReadFile(specPath + ".port"); err == nil && len(b) > 0 {
@@ -1442,7 +1438,7 @@ func c12LiveRestart(t *testing.T, self string, op *c12Op, dir, leftover string) 
 			return
 		}
 		body := fmt.Sprintf(`{"model":%q,"stream":false}`, op.Name)
-		cl := &http.Client{Timeout: 60 * time.Second, Transport: &http.Transport{}}
+		cl := &http.Client{Timeout: 300 * time.Second, Transport: &http.Transport{}}
 		resp, err := cl.Post("http://"+addr+"/api/pull", "application/json", strings.NewReader(body))
 		if err != nil {
 			if _, e2 := os.Stat(specPath + ".serve-error"); e2 == nil {
@@ -1456,7 +1452,7 @@ func c12LiveRestart(t *testing.T, self string, op *c12Op, dir, leftover string) 
 		resp.Body.Close()
 		resCh <- c12Class(resp.StatusCode, string(b))
 	}()
-	c12TraceX([]string{self, "-test.run=^TestVerifC12Serve$", "-test.count=1", "-test.timeout=120s"}, env, dir, 0, dir+".serve.log", opts)
+	c12TraceX([]string{self, "-test.run=^TestVerifC12Serve$", "-test.count=1", "-test.timeout=900s"}, env, dir, 0, dir+".serve.log", opts)
 	select {
 	case result = <-resCh:
 	default:
@@ -1882,12 +1878,14 @@ func TestVerifC12(t *testing.T) {
 			}
 			// canonical effects, per syscall (one pass; the temp numbering is shared)
 			per := make([][]string, len(evs))
+			winPath := make([]string, len(evs)) // canonical path of each syscall (for kill windows without a model effect)
 			var effs []string
 			{
 				cn := &c12Canon{store: full, temps: map[string]int{}}
 				for i := range evs {
 					per[i] = cn.effects(evs[i : i+1])
 					effs = append(effs, per[i]...)
+					winPath[i] = cn.path(evs[i].Path)
 				}
 			}
 			job := ""
@@ -2014,7 +2012,19 @@ func TestVerifC12(t *testing.T) {
 						}
 						return strings.ReplaceAll(x, " ", "_")
 					}
-					return fmt.Sprintf("sys%d", evs[n-1].Nr)
+					// a store syscall without a model effect: say WHICH (the deferred os.Remove of an atomic temp file that
+					// fails after the rename, a directory removal / creation, …) so that a known-finding signature can name
+					// exactly its crash window
+					e := evs[n-1]
+					switch {
+					case (e.Nr == 263 && e.Flags&0x200 != 0) || e.Nr == 84:
+						return "rmdir_" + winPath[n-1]
+					case e.Nr == 83 || e.Nr == 258:
+						return "mkdir_" + winPath[n-1]
+					case (e.Nr == 263 || e.Nr == 87) && e.Ret < 0:
+						return "rmfail_" + winPath[n-1]
+					}
+					return fmt.Sprintf("sys%d_%s", e.Nr, winPath[n-1])
 				}
 				return "?"
 			}
@@ -2076,6 +2086,9 @@ func TestVerifC12(t *testing.T) {
 					continue
 				}
 				caseLine := fmt.Sprintf("%s %d %s", tag, n, window(n))
+				if sc.Op.Fault != "" {
+					caseLine += " fault=" + c12Hex64(sc.Op.FaultDigest) // which blob's body the registry damaged / cut
+				}
 				dir := filepath.Join(work, fmt.Sprintf("r%d-%s-%s-k%d", round, sc.Store, sc.Label, n))
 				c12CopyTree(base, dir)
 				_, killed, _, _, _ := runChild(sc.Op, dir, n)
@@ -2121,6 +2134,25 @@ func TestVerifC12(t *testing.T) {
 						}
 					}
 					res2, startErr, o := c12LiveRestart(t, self, sc.Op, dir, leftover)
+					// the live restart is the only part of the driver that waits on the wall clock (port file, HTTP reply): a
+					// time-out is a MACHINERY failure, not a property failure — recreate the crash state, try once more, and if
+					// it times out again count it (the check has a floor on successful live restarts)
+					timedOut := func(r string) bool {
+						return r == "err:noport" || r == "err:server-exited" || strings.HasPrefix(r, "err:http:")
+					}
+					if timedOut(res2) && startErr == "" {
+						out.Count("live_timeouts")
+						os.RemoveAll(dir)
+						c12CopyTree(base, dir)
+						if _, killed, _, _, _ := runChild(sc.Op, dir, n); killed {
+							res2, startErr, o = c12LiveRestart(t, self, sc.Op, dir, leftover)
+						}
+						if timedOut(res2) && startErr == "" {
+							out.Count("live_timeouts")
+							os.RemoveAll(dir)
+							continue
+						}
+					}
 					out.Count("live_restarts")
 					out.Add("live_prune_held_ms", int(o.heldFor/time.Millisecond))
 					if startErr != "" {
